@@ -124,9 +124,9 @@ func unmappedList() []string {
 	return out
 }
 
-func verdict(d *ast.Document, kind, diff, format string, a ...any) pbt.Verdict {
+func verdict(d *ast.Document, kind, diff, print, format string, a ...any) pbt.Verdict {
 	msg := fmt.Sprintf(format, a...)
-	if f := classifyAccepted(d, kind, diff); f != "" {
+	if f := classifyAccepted(d, kind, diff, print); f != "" {
 		return pbt.BadKnown(f, "%s", msg)
 	}
 	return pbt.Bad("%s", msg)
@@ -151,26 +151,26 @@ func checkAccepted(d *ast.Document, in []byte, o labeler, gq *gqExpect) (pbt.Ver
 		}
 		d2, rep := parseBytes([]byte(p1))
 		if rep.HasErrors() {
-			return verdict(d, kReparse, "", "%s print of an accepted input does not parse: input %s print %s: %s", mode, q(in), q([]byte(p1)), rep.Error()), w, s1
+			return verdict(d, kReparse, "", p1, "%s print of an accepted input does not parse: input %s print %s: %s", mode, q(in), q([]byte(p1)), rep.Error()), w, s1
 		}
 		_, s2, msg := bounds(d2)
 		if msg != "" {
 			return pbt.Bad("re-parsed %s print has an out-of-bounds reference: %s (input %s print %s)", mode, msg, q(in), q([]byte(p1))), w, s1
 		}
 		if df := diffShape(s1, s2); df != "" {
-			return verdict(d, kShape, df, "%s print parses to a different document: %s (input %s print %s)", mode, df, q(in), q([]byte(p1))), w, s1
+			return verdict(d, kShape, df, p1, "%s print parses to a different document: %s (input %s print %s)", mode, df, q(in), q([]byte(p1))), w, s1
 		}
 		p2, err := printDoc(d2, indent)
 		if err != nil || p2 != p1 {
-			return verdict(d, kFix, "", "%s print is not a fixed point: input %s first print %s second print %s (err %v)", mode, q(in), q([]byte(p1)), q([]byte(p2)), err), w, s1
+			return verdict(d, kFix, "", p1, "%s print is not a fixed point: input %s first print %s second print %s (err %v)", mode, q(in), q([]byte(p1)), q([]byte(p2)), err), w, s1
 		}
 		if gq != nil {
 			g, err := gqParse(p1, gq.typeSystem)
 			if err != nil {
-				return verdict(d, kReparse, "", "gqlparser accepts the source but rejects the %s print: %v (input %s print %s)", mode, err, q(in), q([]byte(p1))), w, s1
+				return verdict(d, kReparse, "", p1, "gqlparser accepts the source but rejects the %s print: %v (input %s print %s)", mode, err, q(in), q([]byte(p1))), w, s1
 			}
 			if df := diffShape(gq.shape, g); df != "" {
-				return verdict(d, kDiffer, df, "gqlparser reads the %s print differently from the source (expected vs print): %s (input %s print %s)", mode, df, q(in), q([]byte(p1))), w, s1
+				return verdict(d, kDiffer, df, p1, "gqlparser reads the %s print differently from the source (expected vs print): %s (input %s print %s)", mode, df, q(in), q([]byte(p1))), w, s1
 			}
 		}
 	}
